@@ -272,7 +272,7 @@ def valid_cases(cfg):
     r = run_tlc("PinValid", cfg, workers=4)
     if not r.ok:
         raise MachineryError("generation run failed: %s %s" % (r.violated, r.error))
-    out = []
+    out, extra = [], []
     for p in r.prints:
         if not p or p[0] != "VCASE":
             continue
@@ -284,9 +284,18 @@ def valid_cases(cfg):
             lines.append(["r%dc%d" % (k, j) for j in range(wd)])
         out.append({"source": "tlc-valid", "valid_only": True, "nfeat": h, "ppos": 0, "dd": "short" if dd else "none", "nl": nl,
                     "prots": w, "text": to_text(lines, nl)})
+        # the same shape with an EMPTY LAST FIELD in every second data line of at least two fields (the line then ends with the
+        # separator): the number of fields -- hence the verdict -- is unchanged
+        if any(wd >= 2 for wd in w):
+            l2 = [list(x) for x in lines]
+            for k, wd in enumerate(w):
+                if wd >= 2 and k % 2 == 0:
+                    l2[len(l2) - len(w) + k][-1] = ""
+            extra.append({"source": "tlc-valid-emptylast", "valid_only": True, "nfeat": h, "ppos": 0, "dd": "short" if dd else "none", "nl": nl,
+                          "prots": w, "text": to_text(l2, nl)})
     if len(out) != r.distinct:
         raise MachineryError("generation: %d VCASE lines for %d initial states" % (len(out), r.distinct))
-    return out
+    return out + extra
 
 
 def signature(c):
